@@ -158,6 +158,10 @@ def run(ctx):
                   desc="remainder `%s` is original-case text" % norm(rem))
 
 
+    ctx.rule("R3.3", "namespace prefixes are removed by length, never with the character-set strip family")
+    strip_family_lint(ctx, "R3.3", ["schema.hed_schema", "models.hed_tag", "schema.hed_schema_group"])
+
+
 def _const_suffix_slice(v, d, folded):
     val = d.value
     if not (isinstance(val, ast.Subscript) and isinstance(val.value, ast.Name) and isinstance(val.slice, ast.Slice)
@@ -180,3 +184,41 @@ def _const_suffix_slice(v, d, folded):
         return False
     g = v.guard_for(dn, pred)
     return g is not None and g[1] is True
+
+
+def strip_family_lint(ctx, rule, modules):
+    """`s.lstrip(prefix)` / `rstrip` / `strip` with a non-literal (or multi-character literal) argument removes a *set of
+    characters*, not a prefix/suffix.  In the tag-resolution code a namespace prefix must be removed by slicing with its
+    length (or removeprefix)."""
+    prog = ctx.prog
+    n = 0
+    sample = ast.parse("x = s.lstrip(prefix)")
+    if not _strip_calls(sample):
+        raise AnalysisError("%s positive example no longer matches" % rule)
+    for mn in modules:
+        m = prog.find_module(mn)
+        funcs = [f for f in prog.functions.values() if f.module is m]
+        for f in funcs:
+            for c in walk_no_nested(f.node):
+                if isinstance(c, ast.Call) and isinstance(c.func, ast.Attribute) and c.func.attr in ("strip", "lstrip", "rstrip"):
+                    n += 1
+            for c in _strip_calls(f.node):
+                ctx.violation(rule, f.qualname, c, loc(f, c),
+                              "`%s` strips any run of the *characters* of its argument, not the argument as a prefix/suffix: "
+                              "a tag whose text begins with a letter of its own namespace prefix (`sc:cataplexy`, "
+                              "`ts:sensory-event`) loses that letter and is not identified" % norm(c)[:60])
+    ctx.ok(rule, "%d strip-family calls in %s: none uses a variable / multi-character argument" % (n, ", ".join(modules)), "")
+    return n
+
+
+def _strip_calls(tree):
+    out = []
+    for c in ast.walk(tree):
+        if isinstance(c, ast.Call) and isinstance(c.func, ast.Attribute) and c.func.attr in ("strip", "lstrip", "rstrip") and c.args:
+            a = c.args[0]
+            if isinstance(a, ast.Constant) and isinstance(a.value, str) and len(set(a.value)) <= 1:
+                continue
+            if isinstance(a, ast.Constant) and isinstance(a.value, str) and not a.value.isalnum():
+                continue        # a set of punctuation / blanks is what strip is for
+            out.append(c)
+    return out
